@@ -34,7 +34,7 @@ ASSUMPTIONS = ['M-verify (sim/model.py) is the reference reading of "matches"; i
 
 def generate(rng, tier, idx, keep_going=False):
     top = 'Manifest' if rng.random() < 0.9 else rng.choice(['Manifest.gz', 'Manifest.xz'])
-    g = GT.gen_tree(rng, {'top': top})
+    g = GT.gen_tree(rng, {'top': top, 'p_wrong_dup': 0.12, 'p_second_manifest_ref': 0.2, 'p_second_manifest_ref_wrong': 0.4})
     info = g['info']
     r = rng.random()
     nm = 0 if r < 0.25 else rng.choice([1, 1, 1, 2, 2, 3, 4])
@@ -106,7 +106,9 @@ def execute(sc):
             else:
                 judged += 1
             counters['model.' + v.kind] = counters.get('model.' + v.kind, 0) + 1
-            if cli is not None and v.kind not in ('DONTCARE', 'FAIL-ANY') and 'subpath-under-ignore' not in v.zones:
+            if cli is not None and v.bad_refs:
+                zones['cli-skipped-wrong-second-manifest-reference'] = zones.get('cli-skipped-wrong-second-manifest-reference', 0) + 1
+            elif cli is not None and v.kind not in ('DONTCARE', 'FAIL-ANY') and 'subpath-under-ignore' not in v.zones:
                 if cli['kind'] == 'INTERNAL':
                     results.append(('INTERNAL', cli['name'], cli['exc']))
                 violations += check_cli_agrees(r, cli, 'verify %r' % sub)
